@@ -87,7 +87,7 @@ m = {
  "engines": [
   {"name": "vgraph", "path": "harness/vgraph", "serves_properties": ["C01", "C02", "C03", "C08", "C09", "C10", "C11", "C16", "C17", "C18", "C19"], "kind_free_text": "tier G/L/P: proptest-driven in-process checks linking logos-codegen (capture hook) and the reference model; drives logos-cli and rustc"},
   {"name": "subjects", "path": "harness/subjgen + harness/subject-rt (generated crates under work/subjects)", "serves_properties": ["C01", "C02", "C03", "C04", "C05", "C06", "C07", "C12", "C13", "C20"], "kind_free_text": "tier X: generated #[derive(Logos)] subjects compiled in 4 feature configurations, proptest drivers inside the compiled binary, build-against-build dumps"},
-  {"name": "fuzz", "path": "fuzz", "serves_properties": ["C01", "C02", "C03", "C04", "C05", "C07", "C12", "C14", "C15", "C19", "C20"], "kind_free_text": "tier F (thorough only): cargo-fuzz / libFuzzer + ASan targets fuzz_lex, fuzz_api, fuzz_derive with the property oracles inside the target"},
+  {"name": "fuzz", "path": "fuzz", "serves_properties": ["C01", "C02", "C03", "C04", "C05", "C07", "C12", "C14", "C15", "C19", "C20"], "kind_free_text": "tier F (thorough only): cargo-fuzz / libFuzzer + ASan targets fuzz_lex (compiled subjects), fuzz_graph (fuzzer-decoded definitions, captured graph vs reference), fuzz_api, fuzz_derive with the property oracles inside the target"},
   {"name": "apicheck", "path": "harness/apicheck", "serves_properties": ["C05", "C14", "C15"], "kind_free_text": "tier A: fixed definitions, proptest histories, debug/release x default/forbid_unsafe + ASan"},
  ],
  "checks": checks,
